@@ -68,7 +68,10 @@ func detectSequence(input []byte) (hasSeq bool, width int, msg Msg) {
 	}
 	// Is this an unknown CSI sequence?
 	if loc := unknownCSIRe.FindIndex(input); loc != nil {
-		return true, loc[1], unknownCSISequenceMsg(input[:loc[1]])
+		// The message outlives this call: it must not share memory with the
+		// caller's read buffer, which is refilled while the message is still
+		// being looked at.
+		return true, loc[1], unknownCSISequenceMsg(append([]byte(nil), input[:loc[1]]...))
 	}
 
 	return false, 0, nil
